@@ -185,7 +185,7 @@ def rule_sizes(rep, prog):
                 scal = all(self_field(f.get(k), k) for k in ("size", "byte_size", "page_size"))
                 words = any(s2[0] == 'field' and s2[2] == 'map' for s2 in subterms(f.get("map")))
                 loads = False
-                for cb in prog.closures_of(b):
+                for cb in prog.family(b):
                     for c in cb.calls():
                         if canon(c.target or "").endswith("::load"):
                             loads = True
